@@ -177,11 +177,29 @@ def run(tier, seed):
     from mingus.core import chords as core_chords
     from mingus.core.mt_exceptions import RangeError, FingerError
     from mingus.containers.note import Note
-    from mingus.containers.note_container import NoteContainer
+    from mingus.containers.note_container import NoteContainer as _RealNoteContainer
     from mingus.containers.bar import Bar
     from mingus.containers.track import Track
     from mingus.containers.composition import Composition
     from mingus.containers.instrument import Instrument
+
+    def NoteContainer(*args):
+        """every container of this driver has been LOOKED AT before it is fingered or rendered, the way programs do: an
+        unequal comparison, a loop left early, an index, a membership test (read-only; none of it may show later)"""
+        nc = _RealNoteContainer(*args)
+        k = len(nc.notes)
+        if k:
+            other = _RealNoteContainer()
+            other.notes = [Note("CDEFGAB"[i % 7], 9 + i // 7) for i in range(k)]
+            try:
+                nc == other
+                for _n in nc:
+                    break
+                any(True for _n in nc)
+                nc[0], len(nc), (nc.notes[-1] in nc)
+            except Exception:  # noqa
+                pass
+        return nc
 
     R = Recorder("C20", tier, seed)
     for f in PROPOSED_FINDINGS: R.known.append(f) if f["id"] not in [k.get("id") for k in R.known] else None
